@@ -96,10 +96,12 @@ Print Assumptions c07_zero_root.
 
 (* PARTIAL (general convex case): one body of the loop started to the right of a root r beyond which g, g' > 0 and
    g'' >= 0 moves the iterate left without crossing r.  For real-rooted targets c * prod (x - r_i) the full convergence
-   half is proved below (c07_converges_to_extreme_root).  STILL LEFT TO THE ORACLE: the start left of the smallest
-   root (mirror image, not proved), an extreme root <= 0 (at 0 the relative step never becomes small and the exit
-   needs an exactly representable/underflowing root), general convex targets that are not products of real linear
-   factors, and all float effects. *)
+   half is proved below (c07_converges_to_extreme_root).  The start LEFT of the smallest root Rs < 0 (mirror image) is proved at the END of this
+   file (c07_converges_to_extreme_root_mirror) through the reflection law of the solver model (c07_nrm_reflect).
+   STILL LEFT TO THE ORACLE: an extreme root on the wrong side of the origin or at it - largest root <= 0 approached
+   from the right, smallest root >= 0 approached from the left (the iterates then pass or approach 0, where the
+   relative step never becomes small and the exit needs an exactly representable/underflowing root) -, general convex
+   targets that are not products of real linear factors, and all float effects. *)
 Theorem c07_monotone_partial : forall (p : spoly R) r tol cap (s s' : nstate R) b,
   let g := eval_simple p in let g1 := eval_simple (sd p) in let g2 := eval_simple (sd (sd p)) in
   g r = 0 -> (forall t, r < t -> 0 < g t /\ 0 < g1 t) -> (forall t, r <= t -> 0 <= g2 t) ->
@@ -173,3 +175,48 @@ Example c07_nonvacuous_converges :
   exists x, nrm (fun x => Ok (1 * rprod [1; 2; 4] x)) (fun x => Ok (1 * rdprod [1; 2; 4] x)) 10 100 (1 / 1000) = Ok x /\
             4 <= x /\ (x - 4) * 100 <= 2 * (1 / 1000) * x.
 Proof. exact Proofs.Newton.c07_example_converges. Qed.
+
+(* ---- the mirror image (Proofs/NewtonMirror.v) ------------------------------------------------------------------- *)
+From SV Require Import Proofs.NewtonMirror.
+
+(* REFLECTION LAW of the solver model (exact arithmetic), a general symmetry: solving y |-> f (-y), whose derivative is
+   y |-> - f' (-y), from -x0 gives the negated answer of solving f from x0 - Ok values are negated, Err (and Panic)
+   outcomes are the same.  Every ingredient of the loop body is invariant: the iterate x - v/d becomes its negative,
+   the is_finite guard is constant over R, the exact-root shortcut tests the same residual, `x <> 0` is symmetric, the
+   relative change |x' - x| / x' * 100 changes sign and the exit test reads its absolute value only, the counter is
+   untouched. *)
+Theorem c07_nrm_reflect : forall (f f' : R -> res R) (x0 : R) (cap : nat) (tol : R),
+  nrm (fun y => f (- y)) (fun y => res_map Ropp (f' (- y))) (- x0) cap tol =
+  res_map Ropp (nrm f f' x0 cap tol).
+Proof. exact Proofs.NewtonMirror.nrm_reflect. Qed.
+Check c07_nrm_reflect : forall (f f' : R -> res R) (x0 : R) (cap : nat) (tol : R),
+  nrm (fun y => f (- y)) (fun y => res_map Ropp (f' (- y))) (- x0) cap tol =
+  res_map Ropp (nrm f f' x0 cap tol).
+Print Assumptions c07_nrm_reflect.
+
+(* THE CONVERGENCE HALF, MIRRORED: target g = c * prod (x - r_i), smallest root Rs < 0, start x0 < Rs, 0 < tol, budget
+   K + 1 < cap with 100 ((n-1)/n)^K (Rs - x0) < tol * (-Rs).  Then the solver returns Ok x with x <= Rs and
+   (Rs - x) * 100 <= (n - 1) * tol * |x|  (|x| = -x).  Proof: c07_nrm_reflect and c07_converges_to_extreme_root for
+   c (-1)^n * prod (y + r_i), largest root -Rs > 0, start -x0. *)
+Theorem c07_converges_to_extreme_root_mirror : forall (f f' : R -> res R) (c : R) (rs : list R) (Rs x0 tol : R) (cap K : nat),
+  (forall x, f x = Ok (c * rprod rs x)) -> (forall x, f' x = Ok (c * rdprod rs x)) ->
+  c <> 0 -> In Rs rs -> (forall r, In r rs -> Rs <= r) -> Rs < 0 -> 0 < tol -> x0 < Rs ->
+  (S K < cap)%nat ->
+  100 * (INR (length rs) - 1) ^ K * (Rs - x0) < tol * (- Rs) * INR (length rs) ^ K ->
+  exists x, nrm f f' x0 cap tol = Ok x /\ x <= Rs /\ (Rs - x) * 100 <= (INR (length rs) - 1) * tol * (- x).
+Proof. exact Proofs.NewtonMirror.c07_converges_to_extreme_root_mirror. Qed.
+Check c07_converges_to_extreme_root_mirror : forall (f f' : R -> res R) (c : R) (rs : list R) (Rs x0 tol : R) (cap K : nat),
+  (forall x, f x = Ok (c * rprod rs x)) -> (forall x, f' x = Ok (c * rdprod rs x)) ->
+  c <> 0 -> In Rs rs -> (forall r, In r rs -> Rs <= r) -> Rs < 0 -> 0 < tol -> x0 < Rs ->
+  (S K < cap)%nat ->
+  100 * (INR (length rs) - 1) ^ K * (Rs - x0) < tol * (- Rs) * INR (length rs) ^ K ->
+  exists x, nrm f f' x0 cap tol = Ok x /\ x <= Rs /\ (Rs - x) * 100 <= (INR (length rs) - 1) * tol * (- x).
+Print Assumptions c07_converges_to_extreme_root_mirror.
+
+(* the hypotheses of c07_converges_to_extreme_root_mirror are satisfiable: (x+1)(x+2)(x+4) from -10, tol 1e-3
+   (percent), cap 100, K = 30 - the solver returns the root -4 to within 2 * tol percent *)
+Example c07_nonvacuous_converges_mirror :
+  exists x, nrm (fun x => Ok (1 * rprod [-1; -2; -4] x)) (fun x => Ok (1 * rdprod [-1; -2; -4] x))
+                (-10) 100 (1 / 1000) = Ok x /\
+            x <= -4 /\ (-4 - x) * 100 <= 2 * (1 / 1000) * (- x).
+Proof. exact Proofs.NewtonMirror.c07_example_converges_mirror. Qed.
